@@ -46,8 +46,29 @@ fn usage() -> ! {
     std::process::exit(2)
 }
 
+/// Process-wide lazily initialised tables that contain a std `RandomState` (e.g. the repository's
+/// `STDLIB_MODULES` set) must be created BEFORE the first simulation: creating one inside a simulated
+/// thread consumes one tick of that thread's hash-key counter, so the first run of a process would hash
+/// differently from every later run (and from its own replay).
+pub fn warm_up_process_statics() {
+    if std::env::var("PLSIM_NO_WARMUP").is_ok() {
+        return; // only for demonstrating that the selftest notices the problem
+    }
+    let db = crate::fixtures::FixtureDatabase::new();
+    let p = std::path::PathBuf::from("/nonexistent/plsim_warmup/conftest.py");
+    db.analyze_file(p.clone(), "import pytest\nfrom os import *\nfrom .x import y\npytest_plugins = ['z']\n@pytest.fixture\ndef a(a):\n    '''d'''\n    yield 1\ndef test_a(a):\n    b\n");
+    let mut v = std::collections::HashSet::new();
+    let _ = db.get_imported_fixtures(&p, &mut v);
+    let _ = db.get_available_fixtures(&p);
+    let _ = db.detect_fixture_cycles();
+    let _ = db.get_completion_context(&p, 5, 7);
+    let _ = db.get_unused_fixtures();
+    let _ = crate::config::Config::load(std::path::Path::new("/nonexistent/plsim_warmup"));
+}
+
 pub fn main() {
     simrt::install_panic_hook();
+    warm_up_process_statics();
     let args: Vec<String> = std::env::args().collect();
     match args.get(1).map(|s| s.as_str()) {
         Some("check") | Some("check-inner") => {
@@ -89,6 +110,21 @@ pub fn main() {
                 std::process::exit(2);
             };
             std::process::exit(batch::replay(&spec, file));
+        }
+        Some("debug-determinism") => {
+            // plsim debug-determinism <prop> <scenario> <run_seed> <n>
+            let spec = checks::check_spec(&args[2]).expect("prop");
+            let scen = spec.scenarios.iter().find(|s| s.name() == args[3]).expect("scenario");
+            let seed: u64 = args[4].parse().unwrap();
+            let n: usize = args[5].parse().unwrap();
+            let input = scen.gen(seed, batch::Tier::Quick);
+            let mut seen = std::collections::BTreeMap::new();
+            for _ in 0..n {
+                let o = scen.exec(&input);
+                *seen.entry((o.log_hash, o.state_hash, o.steps)).or_insert(0) += 1;
+            }
+            println!("{:?}", seen);
+            std::process::exit(0);
         }
         Some("selftest") => std::process::exit(checks::selftest()),
         Some("cli-child") => scen_cli::child_main(&args[2..]),
